@@ -42,6 +42,8 @@ fn query_args(g: &mut Gen, bound: usize, samples: usize) -> Vec<u64> {
     let mut v: Vec<u64> = vec![0, 1, 63, 64, 65, 511, 512, 513, 4095, 4096, 4097, b.saturating_sub(1), b, b + 1, b / 2];
     for k in [64u64, 512, 4096] { let m = (b / k) * k; v.push(m.saturating_sub(1)); v.push(m); v.push(m + 1); }
     for _ in 0..samples { v.push(g.rng.below(b + 2)); }
+    // just beyond the end: inside the last word, the last 512-bit block, the last 4096-item superblock
+    v.extend([b + 2, b + 63, b + 64, b + 65, b + 130, (b / 64 + 1) * 64, (b / 512 + 1) * 512 - 1, (b / 512 + 1) * 512, (b / 4096 + 1) * 4096 - 1]);
     // "for all query arguments": far beyond the end and the extreme values of the argument type
     v.extend([b.saturating_mul(2).saturating_add(7), 1u64 << 32, 1u64 << 63, (1u64 << 63) + 1, MAXU - 1, MAXU]);
     v.sort(); v.dedup();
